@@ -344,7 +344,7 @@ PROPS["C02"] = dict(
         dict(test="TestC02LockSvc", late=False, quick=dict(checks=40, shards=1, timeout=600), thorough=dict(checks=1500, shards=4, timeout=3000)),
         dict(test="TestC02DQueue", quick=dict(checks=40, shards=1, timeout=600), thorough=dict(checks=1500, shards=4, timeout=3000)),
         dict(test="TestC02PBKVS", quick=dict(checks=40, shards=1, timeout=600), thorough=dict(checks=1500, shards=4, timeout=3000)),
-        dict(test="TestC02RaftKVS", quick=dict(checks=96, shards=4, timeout=900), thorough=dict(checks=1600, shards=8, timeout=3300)),
+        dict(test="TestC02RaftKVS", quick=dict(checks=72, shards=4, timeout=900), thorough=dict(checks=1600, shards=8, timeout=3300)),
     ],
 )
 
